@@ -64,6 +64,21 @@ def run(ctx):
             else:
                 d1.fail('%s.%s' % (c.name, mname), 'returns-arg', 'does not return its stream argument on every path', f, f.node)
 
+    # _undock clears the pointer of whatever stream it is given, on every path (placeholders included)
+    for c in subs:
+        f = c.methods.get('_undock')
+        if f is None or f.cls is not c:
+            continue
+        paths, _ = run_paths(f.node)
+        sp = f.params[1]
+        side = '_sink' if any(isinstance(n, ast.Attribute) and n.attr == '_sink' for n in ast.walk(f.node)) else '_source'
+        good_ = all(any(e.kind == 'store' and e.target == '%s.%s' % (sp, side) and src(e.stmt.value) == 'None' for e in p.events)
+                    for p in paths if not p.raised)
+        if good_ and paths:
+            d1.ok('%s._undock' % c.name, 'clears %s.%s on every path (any stream, placeholders included)' % (sp, side), f)
+        else:
+            d1.fail('%s._undock' % c.name, 'conditional-undock', '_undock leaves %s.%s untouched on some path: a displaced stream keeps pointing at this unit' % (sp, side), f, f.node)
+
     # ---- summaries of private helpers that drop the whole list without undocking
     drop_helpers = {}
     methods = []
